@@ -36,7 +36,7 @@
 #define MAXEV 16384
 
 enum { ST_UNUSED, ST_RUN, ST_BLOCK, ST_FIN, ST_FROZEN, ST_GONE };
-enum { BK_NONE, BK_MUTEX, BK_FUTEX, BK_JOIN, BK_GATE, BK_COND, BK_STALL };
+enum { BK_NONE, BK_MUTEX, BK_FUTEX, BK_JOIN, BK_GATE, BK_COND, BK_STALL, BK_THAW };
 
 struct sbent { uintptr_t addr; int size; uint64_t val; int hold; };
 
@@ -380,6 +380,9 @@ static void switch_to(int next)
 	fwait(&me->baton);
 }
 static void do_freeze(struct thr *me);
+static int thawed;	/* C17 second phase (ds_solo_thaw) */
+static int wake_blocked(int kind, void *obj, int max);
+static int others_unfinished(struct thr *me);
 static int solo_at_gate(void)
 {
 	for (int i = 0; i < nT; i++) if (!T[i].daemon && T[i].scen_idx == freeze_solo) return T[i].state == ST_BLOCK && T[i].bkind == BK_GATE;
@@ -393,6 +396,7 @@ static void resched(void)
 	if (next < 0) {
 		sb_drain_all();
 		next = pick();
+		if (next < 0 && thawed && !others_unfinished(NULL) && wake_blocked(BK_THAW, NULL, MAXT)) next = pick();
 		if (next < 0) {
 			char b[600]; describe_threads(b, sizeof b);
 			if (!scen_unfinished()) die("badcase", "internal: resched with all scenario threads done");
@@ -552,6 +556,27 @@ static int wake_blocked(int kind, void *obj, int max)
 		else if (T[i].state == ST_FROZEN && T[i].frozen_was == ST_BLOCK && T[i].bkind == kind && T[i].bobj == obj) { T[i].frozen_was = ST_RUN; T[i].bkind = BK_NONE; n++; }
 	if (n) last_progress_step = ds_step;
 	return n;
+}
+/* C17, second phase: the solo thread lets every suspended thread go again, waits until all of them have finished their programs (store buffers
+ * drained; a thread that waits in pthread_join counts as finished), and then runs on with nothing in flight anywhere */
+static int others_unfinished(struct thr *me)
+{
+	int n = 0;
+	for (int i = 0; i < nT; i++) if (&T[i] != me && !T[i].daemon && T[i].state != ST_FIN && T[i].state != ST_GONE && T[i].state != ST_UNUSED && !(T[i].state == ST_BLOCK && (T[i].bkind == BK_THAW || T[i].bkind == BK_JOIN))) n++;
+	return n;
+}
+int ds_solo_thaw(void)
+{
+	struct thr *me = self;
+	if (!active || !me || !solo_on) return 0;
+	in_rt = 1;
+	solo_on = 0; thawed = 1;
+	for (int i = 0; i < nT; i++) if (T[i].state == ST_FROZEN) T[i].state = T[i].frozen_was;
+	last_progress_step = ds_step;
+	if (others_unfinished(me)) block_on(BK_THAW, NULL);
+	sb_drain_all();
+	in_rt = 0;
+	return 1;
 }
 void ds_solo_gate(void)
 {
@@ -958,10 +983,12 @@ static void thread_finish(struct thr *me)
 	me->state = ST_FIN;
 	last_progress_step = ds_step;
 	wake_blocked(BK_JOIN, me, MAXT);
+	if (thawed && !others_unfinished(NULL)) wake_blocked(BK_THAW, NULL, MAXT);
 	int next = pick();
 	if (next < 0) { sb_drain_all(); next = pick(); }
 	if (next < 0 && nstall) { wake_stalled(1); next = pick(); }
 	if (next < 0 && freeze_solo >= 0 && !solo_on && solo_at_gate()) { do_freeze(me); next = pick(); }
+	if (next < 0 && thawed && !others_unfinished(NULL) && wake_blocked(BK_THAW, NULL, MAXT)) next = pick();
 	if (next < 0) {
 		if (scen_unfinished()) { char b[600]; describe_threads(b, sizeof b); die(solo_on ? "solo_block" : "deadlock", "at thread exit: %s", b); }
 		return;
